@@ -9,7 +9,7 @@ def main():
     for p in sorted(glob.glob(os.path.join(tlc.SPEC, "*.tla"))):
         mod = os.path.basename(p)[:-4]
         # top-level modules of claimed checks (sany parses what they extend); others are work in progress
-        if not any(mod in (f"MC_{c}", f"Trace_{c}") for c in claimed): continue
+        if not any(mod.startswith((f"MC_{c}", f"Trace_{c}")) for c in claimed): continue
         ok, out = tlc.sany(mod)
         print(f"[sany] {mod}: {'ok' if ok else 'FAILED'}")
         if not ok:
